@@ -145,6 +145,13 @@ func (p *Parser) ParseProgram() *ast.Program {
 		p.nextToken() // skip to next token
 	}
 
+	// the input ended inside of "{{ }}", directive's parentheses,
+	// a string or a comment
+	if p.l.IsInsideCode() {
+		p.newError(p.curToken.ErrorLine(), fail.ErrUnexpectedEOF)
+		return nil
+	}
+
 	prog.Components = p.components
 	prog.Inserts = p.inserts
 	prog.UseStmt = p.useStmt
